@@ -274,6 +274,58 @@ Section Clean.
   Ltac go := repeat brk; fold_ep; simpl res in *; repeat (fwd; simpl res in * ); try finish.
   Ltac start s Hat := destruct Hat as (? & ? & ?); subst; pose proof (at_refl s).
 
+  Lemma at_leave_gen : forall a f r b s, at_base (S (S (S a))) (f :: r) b s -> at_base a r b (leave_gen s).
+  Proof. intros. unfold leave_gen. eauto 8 with atdb. Qed.
+  Lemma at_gen_reenter : forall a r b s, at_base a r b s ->
+    at_base (S (S (S a))) (mkFrame (S (S (S a))) (length b) (FHandler false false) :: mkFrame (S (S a)) (length b) FMarker :: r) b
+            (gen_reenter s).
+  Proof. intros. unfold gen_reenter. eauto 8 with atdb. Qed.
+  Lemma J_leave_gen : forall s, J s -> J (leave_gen s). Proof. auto. Qed.
+  Lemma J_gen_reenter : forall s, J s -> J (gen_reenter s). Proof. auto. Qed.
+
+  Lemma gen_intr_ok : forall a0 r b x a' o o' s',
+    above a' (mkFrame (S (S a0)) (length b) FMarker :: r) b x -> S (S a0) <= a' -> J x ->
+    gen_intr c o x = (o', s') -> J s' /\ above a0 r b s' /\ o' = o.
+  Proof.
+    intros a0 r b x a' o o' s' Ha Hle Hj H. unfold gen_intr in H. inversion H; subst; clear H.
+    change (pop_frame (unwind_u c x)) with (recover_deferred c x).
+    destruct (under_marker_intr (S (S a0)) r b x a' Ha Hle Hj) as [Q P].
+    split; [apply J_pop_ctx; exact Q |]. split; [| reflexivity].
+    apply above_ctx, at_above, at_pop_ctx. exact P.
+  Qed.
+
+  Lemma gen_throw_ok : forall a0 r b x a' o' s',
+    above a' (mkFrame (S (S a0)) (length b) FMarker :: r) b x -> S (S a0) <= a' -> J x ->
+    gen_throw c (S (length r)) x = (o', s') -> J s' /\ above a0 r b s' /\ o' <> ONorm.
+  Proof.
+    intros a0 r b x a' o' s' Ha Hle Hj H. unfold gen_throw in H.
+    destruct (restore_to c (S (length r)) x) as [o1 s1] eqn:E.
+    eapply under_frame_throw in E; [ | exact Ha | reflexivity | exact Hle | exact Hj ].
+    destruct E as [Hj1 [[Eo Hat] | [t [Eo Hab]]]]; subst o1.
+    - inversion H; subst. split; [auto with jdb |]. split; [| discriminate].
+      apply above_ctx, at_above. eauto with atdb.
+    - inversion H; subst. change (pop_frame (unwind_u c s1)) with (recover_deferred c s1).
+      destruct (under_marker_intr (S (S a0)) r b s1 (S (S a0)) Hab (le_n _) Hj1) as [Q P].
+      split; [apply J_pop_ctx; exact Q |]. split; [| discriminate].
+      apply above_ctx, at_above, at_pop_ctx. exact P.
+  Qed.
+
+  Lemma gen_after_fin_ok : forall a0 r b k pend o2 s6 o s',
+    res o2 (S (S (S a0))) (mkFrame (S (S (S a0))) (length b) (FHandler false k) :: mkFrame (S (S a0)) (length b) FMarker :: r) b s6 ->
+    J s6 ->
+    gen_after_fin c (S (length r)) pend (o2, s6) = (o, s') -> J s' /\ res o a0 r b s'.
+  Proof.
+    intros a0 r b k pend o2 s6 o s' Hr Hj H. unfold gen_after_fin in H. destruct o2; simpl in Hr.
+    - destruct pend.
+      + eapply gen_throw_ok in H; [ | apply at_above; eapply at_pop_frame; exact Hr | lia | auto with jdb ].
+        destruct H as (A & B & C). split; [exact A |]. destruct o; [congruence | exact B | exact B].
+      + inversion H; subst. split; [auto with jdb |]. simpl. eapply at_leave_gen. eapply at_pop_frame. exact Hr.
+    - eapply gen_throw_ok in H; [ | eapply above_handler; [exact Hr | reflexivity] | lia | exact Hj ].
+      destruct H as (A & B & C). split; [exact A |]. destruct o; [congruence | exact B | exact B].
+    - eapply gen_intr_ok in H; [ | eapply above_handler; [exact Hr | reflexivity] | lia | exact Hj ].
+      destruct H as (A & B & C). subst o. split; [exact A | exact B].
+  Qed.
+
   Lemma clean_all : (forall i, Pi i) /\ (forall p, Pc p) /\ (forall l, Ps l).
   Proof.
     apply tree_mutind; unfold Pi, Pc, Ps.
@@ -287,7 +339,25 @@ Section Clean.
     - (* INat *) intros k l [_ [IH _]] s o s' a r b H Hat Hj. start s Hat. simpl in H. destruct k; go.
     - (* IForOf *) intros ret l [IH _] s o s' a r b H Hat Hj. start s Hat. simpl in H. go.
     - (* IGen *) intros l [_ [_ IH]] s o s' a r b H Hat Hj. simpl in H. eapply IH; eauto.
-    - (* IGenRet *) intros pre IHp fin IHf s o s' a r b H Hat Hj. start s Hat. simpl in H. go.
+    - (* IGenRet *) intros pre IHp fin IHf s o s' a r b H Hat Hj. simpl in H.
+      assert (Ht : ts s = r) by (destruct Hat as (_ & T & _); exact T). rewrite Ht in H.
+      destruct (exec_c c pre _) as [o1 s3] eqn:E1.
+      eapply IHp in E1; [ | apply at_push_frame, at_push_ctx, at_push_frame, at_push_ctx, at_push_ctx; exact Hat | auto 8 with jdb ].
+      destruct E1 as [Hj3 Hr3]. destruct o1; simpl in Hr3.
+      + destruct (exec_c c fin _) as [o2 s6] eqn:E2.
+        eapply IHf in E2; [ | apply at_gen_reenter; eapply at_leave_gen; eapply at_pop_frame; exact Hr3
+                            | apply J_gen_reenter, J_leave_gen, J_pop_frame; exact Hj3 ].
+        destruct E2 as [Hj6 Hr6]. eapply gen_after_fin_ok; eassumption.
+      + destruct (restore_to c _ s3) as [o' s4] eqn:E3.
+        eapply under_frame_throw in E3; [ | exact Hr3 | reflexivity | lia | exact Hj3 ].
+        destruct E3 as [Hj4 [[Eo Hat4] | [t [Eo Hab4]]]]; subst o'.
+        * destruct (exec_c c fin s4) as [o2 s5] eqn:E2.
+          eapply IHf in E2; [ | exact Hat4 | exact Hj4 ]. destruct E2 as [Hj5 Hr5].
+          eapply gen_after_fin_ok; eassumption.
+        * eapply gen_intr_ok in H; [ | eapply above_handler; [exact Hab4 | reflexivity] | lia | exact Hj4 ].
+          destruct H as (A & B & C). subst o. split; [exact A | exact B].
+      + eapply gen_intr_ok in H; [ | eapply above_handler; [exact Hr3 | reflexivity] | lia | exact Hj3 ].
+        destruct H as (A & B & C). subst o. split; [exact A | exact B].
     - (* IAsync *) intros pre IHp post _ s o s' a r b H Hat Hj.
       assert (okjob (JAsync post)) by exact I. start s Hat. simpl in H. go.
     - (* IJob *) intros bd _ s o s' a r b H Hat Hj. assert (okjob (JPlain bd)) by exact I. simpl in H. go.
